@@ -58,7 +58,7 @@ var targets = []string{
 var jobMethods = map[string]bool{"importPcapJob": true, "updateTagJob": true, "mergeIndexesJob": true, "convertStreamJob": true}
 
 type stats struct {
-	Creates, Opens, Spawned, JobBegin, JobPost, JobYield, Unlocked, Clock, Ticker, MapRange, MapRangeSkipped, IOPoints, NumCPU, KnobSnap, KnobCleanup, WorkerIdle int
+	Creates, Opens, Watchers, Spawned, JobBegin, JobPost, JobYield, Unlocked, Clock, Ticker, MapRange, MapRangeSkipped, IOPoints, NumCPU, KnobSnap, KnobCleanup, WorkerIdle int
 }
 
 func fail(format string, a ...any) {
@@ -645,6 +645,14 @@ func (rw *rewriter) rewriteExprs() {
 					Names:  []*ast.Ident{ast.NewIdent("_")},
 					Values: []ast.Expr{&ast.SelectorExpr{X: ast.NewIdent("os"), Sel: ast.NewIdent("Args")}},
 				}}})
+			} else if r, n := rw.recvType(x); n == "Add" && strings.HasSuffix(r, "fsnotify.Watcher") && len(x.Args) == 1 {
+				// in simulation the directory watchers watch nothing: file events are
+				// delivered by the controller at steps of the schedule (inotify would
+				// deliver them in real time)
+				x.Args = []ast.Expr{x.Fun, x.Args[0]}
+				x.Fun = &ast.SelectorExpr{X: ast.NewIdent("simrt"), Sel: ast.NewIdent("WatcherAdd")}
+				rw.usedRT = true
+				rw.st.Watchers++
 			} else if p == "os" && nm == "OpenFile" && rw.pkg == "cmd/pkappa2" {
 				// descriptor exhaustion seam of the upload handler
 				x.Fun = &ast.SelectorExpr{X: ast.NewIdent("simrt"), Sel: ast.NewIdent("OSOpenFile")}
